@@ -487,7 +487,8 @@ def run(ctx):
     # blanks, nothing else (directory and suffix lists are case-sensitive)
     cl = repo.func('wpull.application.options:AppArgumentParser.comma_list')
     allowed = {'split', 'strip', 'list', 'tuple'}
-    extra = sorted({(U.attr_name(c) or (c.func.id if isinstance(c.func, ast.Name) else '?')) for c in U.calls(cl.node)} - allowed)
+    extra = sorted({(U.attr_name(c) or (c.func.id if isinstance(c.func, ast.Name) else '?')) for c in U.calls(cl.node)
+                    if not (dotted(c.func) or '').startswith(('_logger.', 'logger.', 'logging.'))} - allowed)
     ck.expect(not extra, 'C02-D5', cl.qual, 'comma_list: split(",") and strip() only',
               'the list converter also applies %s to every item: a directory, suffix or host given with other spelling no longer matches the '
               'URLs it was meant for (-X /Private becomes /private and /Private/... is crawled)' % extra, cl.loc())
